@@ -39,7 +39,7 @@ AUDIT = "RV/C08/Audit.lean"
 DRIVER = "drv_c08"
 CASES = {"quick": 1100, "thorough": 40000, "search": 12000}
 RULE = ("random SELECT queries (put as text, prepared object, with initNs/base/initBindings, to a Graph / Dataset / union / aggregate) = (VALUES | VALUES+OPTIONAL over a graph | BGP | empty BGP) producing 0-9 solutions over 1-3 "
-        "variables with unbound cells, mixed kinds and datatypes, duplicates, falsy terms; modifiers DISTINCT/REDUCED, "
+        "variables with unbound cells, mixed kinds and datatypes (numerics, booleans, plain / language-tagged strings, xsd:dateTime with and without timezone, xsd:date), duplicates, falsy terms; modifiers DISTINCT/REDUCED, "
         "projection with (expr AS ?v), ORDER BY 0-3 keys ASC/DESC, LIMIT/OFFSET, GROUP BY 0-2 keys or the implicit group, "
         "the seven aggregates with/without DISTINCT, aggregates inside arithmetic, HAVING, ORDER BY on aggregates and aliases; "
         "non-trivial = at least one solution and at least one modifier or aggregate did real work "
@@ -48,6 +48,7 @@ RULE = ("random SELECT queries (put as text, prepared object, with initNs/base/i
 ASSUMPTIONS = [
     "the WHERE pattern's solution sequence is the listed rows (checked on every case against rdflib itself: SELECT of all variables)",
     "CPython sorted() is a stable sort (the model uses insertion sort; on a strict weak order every stable sort gives the same list)",
+    "CPython's datetime module is what Model.lean transcribes (_ymd2ord, _days_before_month, field checks, isoformat); compared on every case with temporal terms / probes (`cal` line)",
     "Python int/Decimal arithmetic is exact on the generated magnitudes; generated xsd:double values are small dyadic "
     "rationals so float sums are exact; AVG quotients (Decimal 28 digits / float) are compared after rounding to the "
     "nearest fraction with denominator <= 10^6",
@@ -169,7 +170,7 @@ def tok(d):
     if k == "B":
         return f"B.{d[1]}"
     if k == "S":
-        return f"S.{cps(d[1])}.{cps(d[2])}"
+        return f"S.{cps(d[1])}.{cps(d[2].lower())}"  # language tags are case-insensitive: "a"@EN is the term "a"@en
     if k == "U":
         return "U." + cps(E_NS + d[1])
     if k == "N":
@@ -194,7 +195,7 @@ def canon_desc(d):
     if k == "B":
         return f"B:{d[1]}"
     if k == "S":
-        return f"S:{d[1]}@{d[2]}"
+        return f"S:{d[1]}@{d[2].lower()}"
     if k == "U":
         return "U:" + E_NS + d[1]
     return "N:" + d[1]
@@ -994,6 +995,7 @@ def run_impl(case):
                                                 ["v", e[1]] not in q["proj"] for e, _d in q["order"]))}
     ntime = sum(1 for r in case["rows"] for c in r if c is not None and c[0] in "TY")
     stats["cases_with_dateTime_or_date"] = int(ntime > 0)
+    stats["cases_with_uppercase_language_tag"] = int(any(c is not None and c[0] == "S" and c[2] != c[2].lower() for r in case["rows"] for c in r))
     stats["temporal_cells"] = ntime
     for p in q["proj"]:
         for a in _aggs_in(p[1] if p[0] == "e" else None):
@@ -1288,7 +1290,7 @@ def gen_term(rng, profile, bn_ok):
     if profile == "str":
         if r < 0.85:
             return ["S", rng.choice(STRS), ""]
-        return ["S", rng.choice(["a", "b"]), rng.choice(["en", "fr"])]
+        return ["S", rng.choice(["a", "b"]), rng.choice(["en", "fr", "en", "fr", "EN"])]
     if profile == "time":  # xsd:dateTime / xsd:date, now and then something else
         if r < 0.85:
             return gen_time(rng)
@@ -1315,7 +1317,7 @@ def gen_term(rng, profile, bn_ok):
     if r < 0.92 and bn_ok:
         return ["N", rng.choice(BNS)]
     if r < 0.96:
-        return ["S", rng.choice(["a", "b"]), rng.choice(["en", "fr"])]
+        return ["S", rng.choice(["a", "b"]), rng.choice(["en", "fr", "en", "fr", "EN"])]
     # (derived integer datatypes stay in the purely numeric columns: next to strings Literal.__gt__ is not
     #  transitive — known finding C08-K1, exercised by its witness — and then the answer depends on the sort algorithm)
     return ["I", rng.choice(INTS)]
